@@ -124,7 +124,7 @@ def judge_run(before, named, r, after, fired, sim, mounts, desc, st):
     faulted_paths = set()
     for ev in r.trace:
         # the implementation's own clean-up (existence probe + unlink) was hit by a fault
-        if isinstance(ev[6], str) and ev[6].startswith('FAULT:') and ev[2] in ('remove', 'unlink', 'rmdir', 'lstat', 'stat'):
+        if isinstance(ev[6], str) and ev[6].startswith('FAULT:') and ev[2] in ('remove', 'unlink', 'rmdir'):
             faulted_paths.add(ev[3])
     for clause, detail, nm in probs:
         if clause in ('stray-info',) or clause.startswith('half-trashed:stray-info'):
